@@ -117,28 +117,35 @@ def xattr_reader_stage(work, rep, ev, tier, rng, cfg):
     writer produces for the add sequences emitted from spec/XattrWriter.tla (ASan): the last answer has to be the one a
     fresh reader gives."""
     MW = 2 if tier == "quick" else 3
-    write_cfg(cfg, spec="Spec", constants={"Emit": False, "MaxWalks": MW, "ReturnMode": '"eager"'}, invariants=["HistoryFree", "NothingPendingAtSeek"], deadlock=False)
+    write_cfg(cfg, spec="Spec", constants={"Emit": False, "MaxWalks": MW, "ReturnMode": '"eager"', "DescSharesCursor": False}, invariants=["HistoryFree", "NothingPendingAtSeek"], deadlock=False)
     r = run_tlc("XattrReader", cfg, workers=8, timeout=900)
     ev.tlc(r, "XattrReader walks<=%d" % MW)
     if not r["ok"]:
         print("MODEL-FAILURE: XattrReader violates %s" % r["violated"])
         return None
-    write_cfg(cfg, spec="Spec", constants={"Emit": False, "MaxWalks": 2, "ReturnMode": '"lazy"'}, invariants=["HistoryFree"], deadlock=False)
+    write_cfg(cfg, spec="Spec", constants={"Emit": False, "MaxWalks": 2, "ReturnMode": '"lazy"', "DescSharesCursor": False}, invariants=["HistoryFree"], deadlock=False)
     r = run_tlc("XattrReader", cfg, workers=8, timeout=900)
     ev.tlc(r, "dev XattrReader lazy return")
     if r["violated"] != "HistoryFree":
         print("SELF-CHECK-FAILED: XattrReader deviation 'lazy' without a HistoryFree counterexample")
         return None
-    write_cfg(cfg, spec="Spec", constants={"Emit": True, "MaxWalks": 2, "ReturnMode": '"eager"'}, invariants=["EmitOK"], deadlock=False)
+    write_cfg(cfg, spec="Spec", constants={"Emit": False, "MaxWalks": 1, "ReturnMode": '"eager"', "DescSharesCursor": True}, invariants=["HistoryFree"], deadlock=False)
+    r = run_tlc("XattrReader", cfg, workers=8, timeout=900)
+    ev.tlc(r, "dev XattrReader DescSharesCursor")
+    if r["violated"] != "HistoryFree":
+        print("SELF-CHECK-FAILED: XattrReader deviation DescSharesCursor without a HistoryFree counterexample")
+        return None
+    write_cfg(cfg, spec="Spec", constants={"Emit": True, "MaxWalks": 2, "ReturnMode": '"eager"', "DescSharesCursor": False}, invariants=["EmitOK"], deadlock=False)
     r = run_tlc("XattrReader", cfg, workers=2, timeout=900)
     progs = bpbind.parse_emitted(r["out"])
-    qlines = sorted({"Q " + " ".join("%d:%d:%d" % (w["s"] - 1, w["n"], 1 if w["k"] else 0) for w in p["prog"]) + " ; %d" % (p["final"] - 1) for p in progs})
+    qlines = sorted({"Q " + " ".join("%d:%d:%d:%d" % (w["s"] - 1, w["n"], 1 if w["k"] else 0, w["d"]) for w in p["prog"]) + " ; %d" % (p["final"] - 1) for p in progs})
     if len(qlines) < 100:
         print("SELF-CHECK-FAILED: XattrReader emitted %d programs" % len(qlines))
         return None
     if len(qlines) > 250:
         rng.shuffle(qlines)
-        qlines = sorted(qlines[:250])
+        single = [q for q in qlines if q.count(":") == 4]                       # one walk + the final read: every position of a descriptor lookup
+        qlines = sorted(set(single[:80] + qlines[:250]))
     # key/value areas: the add sequences of XattrWriter with 3 inodes in which a long value is shared (out-of-line references exist)
     write_cfg(cfg, spec="Spec", constants={"Emit": True, "MaxInodes": 3, "MaxAdds": 2, "Compare": '"pairs"', "ReplaceSameKey": True, "OolNeedsLong": True,
                                            "OolByValue": True, "NLong": 1}, invariants=["EmitOK"], deadlock=False)
@@ -185,8 +192,8 @@ def xattr_reader_stage(work, rep, ev, tier, rng, cfg):
                         n += 1
                     if h == 0 and "hist" not in done:
                         done.add("hist")
-                        rep.violation("xattr-reader-history", "xattr sets %s: after the walks '%s' (inode:pairs:extra key ... ; inode read completely) the reader returns a "
-                                      "different set than a fresh reader" % (c["input"], qlines[qi][2:]), data={"input": c["input"], "history": qlines[qi]})
+                        rep.violation("xattr-reader-history", "xattr sets %s: during / after the walks '%s' (inode:pairs:extra key:descriptor lookup at ... ; inode read completely) the reader returns "
+                                      "other keys or values than a fresh reader" % (c["input"], qlines[qi][2:]), data={"input": c["input"], "history": qlines[qi]})
                 if not rr.get("history_free", True) and "seq" not in done:
                     done.add("seq")
                     rep.violation("xattr-reader-history", "xattr sets %s: reading the sets one after the other on one reader differs from fresh readers" % c["input"], data={"input": c["input"]})
